@@ -194,6 +194,7 @@ thread_local! {
     static CALLS: Cell<u32> = const { Cell::new(0) };
     static DROPS: Cell<u32> = const { Cell::new(0) };
     static NEXTS: Cell<u32> = const { Cell::new(0) };
+    static TOKS: Cell<u32> = const { Cell::new(0) };
 }
 
 const WATCHDOG: Duration = Duration::from_secs(30);
@@ -290,6 +291,16 @@ pub fn drop_yield_point() {
         return;
     }
     revocable_yield(DROP_YIELD.load(Ordering::Relaxed), &DROPS);
+}
+
+/// Yield point in the destructor of a closure's captured token (whenever destructors are yield points): revocable park.
+pub fn closure_drop_yield_point() {
+    if !ACTIVE.load(Ordering::Relaxed) || std::thread::panicking() {
+        return;
+    }
+    if DROP_YIELD.load(Ordering::Relaxed) > 0 {
+        revocable_yield(1, &TOKS);
+    }
 }
 
 /// Yield point inside `next()` of the instrumented source iterator (scheduled mode, opt-in per case): revocable park.
